@@ -25,6 +25,7 @@ type mutantDef struct {
 	ID     string `json:"id"`
 	Prop   string `json:"prop"`
 	Expect string `json:"expect"`
+	Base   string `json:"base"` // optional: a behaviour-preserving patch (path relative to /verif) applied before the edits
 	Edits  []struct {
 		File string `json:"file"`
 		Old  string `json:"old"`
@@ -126,6 +127,13 @@ func selfTest(propID, repo, verif string) map[string]interface{} {
 				return
 			}
 			if v.mutant != nil {
+				if v.mutant.Base != "" {
+					cmd := exec.Command("git", "apply", filepath.Join(verif, v.mutant.Base))
+					cmd.Dir = tmp
+					if cmd.Run() != nil {
+						return
+					}
+				}
 				for _, e := range v.mutant.Edits {
 					p := filepath.Join(tmp, e.File)
 					b, err := os.ReadFile(p)
